@@ -8,10 +8,8 @@
    every setting of recurse / vt / grpc and every package oracle [pkg_of].
    Hypotheses (all on the INPUT): [wf_node] — the tree is a file system (sibling names distinct,
    no "", ".", ".."); [dirs_ok] — the input directory and the include directories exist and are
-   directories; [tree_agreesb] — for the mapping clause only: the line scan of
-   protoFileHasGoPackage is right about every *.proto file of the tree (ProtoLex.scan_agrees:
-   scan = "declares option go_package" by the file's lexical structure).  Without the last one
-   the mapping clause is FALSE of the code ([C20_full_refuted]; known findings C20-scan-…);
+   directories.  The mapping clause holds without a condition on the files since fix b058b67
+   ([C20_full]; the former line scan and its counterexamples: [C20_scan_orig_refuted]);
    [run … = Ok argv] — the tool reached exec.Command (it does, by C20_one_invocation, whenever
    PackageNameFromPath succeeds).                                                             *)
 From Coq Require Import String List Bool Ascii.
@@ -55,48 +53,56 @@ Proof. exact run_plugins. Qed.
 
 (* the mapping clause as the property states it: for every proto under the include paths that
    does not DECLARE `option go_package` ([spec_mappings]: by the lexical structure of the file's
-   content) … *)
+   content), every requested plugin — and no other — receives exactly the mapping the property
+   lists.  True of the code since fix C20-go-package-scan (b058b67): declaresGoPackage decides
+   "declares" correctly for every content ([C20_scan_correct]). *)
 Definition C20_full_statement : Prop := forall pkg_of cfg argv,
   wf_node (c_root cfg) -> dirs_ok cfg -> run pkg_of cfg = Ok argv ->
   forall pl, mappings_of pl argv = spec_mappings pkg_of cfg pl.
 
-(* … is false of the code: protoFileHasGoPackage decides by `strings.Contains(line, "option
-   go_package =")`.  Witness: one proto whose option is commented out gets no mapping. *)
-Definition refute_root : node :=
-  Dir "" [Dir "m" [File "a.proto" "syntax = ""proto3"";
-// option go_package = ""example.com/x"";
-message M {}
-" true]].
-Definition refute_cfg : config :=
-  {| c_root := refute_root; c_cwd := ["m"]; c_input := PRel []; c_recurse := false;
-     c_vt := false; c_grpc := false; c_includes := [] |}.
+Theorem C20_full : C20_full_statement.
+Proof. exact run_mappings_full. Qed.
 
-Theorem C20_full_refuted : ~ C20_full_statement.
-Proof.
-  intros H.
-  assert (Hwf : wf_node (c_root refute_cfg)) by (apply wf_nodeb_sound; vm_compute; reflexivity).
-  assert (Hd : dirs_ok refute_cfg) by (apply dirs_okb_sound; vm_compute; reflexivity).
-  destruct (run (fun _ => Ok "example.com/m") refute_cfg) as [argv|] eqn:E; [|vm_compute in E; discriminate].
-  specialize (H _ _ _ Hwf Hd E PGo). vm_compute in E. inversion E; subst. vm_compute in H. discriminate.
-Qed.
-
-(* C20_partial: on the input domain where the scan is right about every *.proto file, every
-   requested plugin — and no other — receives exactly the mappings the property lists *)
 Theorem C20_mappings : forall pkg_of cfg argv,
-  wf_node (c_root cfg) -> dirs_ok cfg -> tree_agreesb (c_root cfg) = true ->
-  run pkg_of cfg = Ok argv ->
+  wf_node (c_root cfg) -> dirs_ok cfg -> run pkg_of cfg = Ok argv ->
   forall pl, mappings_of pl argv = spec_mappings pkg_of cfg pl.
-Proof. exact run_mappings_spec. Qed.
+Proof. exact run_mappings_full. Qed.
 
 (* … where, per include path (directory a, optional prefix), [spec_mappings_of] lists, each
    relative path once, exactly the pairs (r, k): a ++ r is a regular *.proto file below a that
    does not declare go_package, and k is filepath.Join of the prefix as typed with the directory
    of r when a prefix was given, the Go package of the directory of a ++ r otherwise *)
-Theorem C20_mappings_scope : forall pkg_of cfg inc,
-  wf_node (c_root cfg) -> tree_agreesb (c_root cfg) = true ->
+Theorem C20_mappings_scope : forall pkg_of cfg inc, wf_node (c_root cfg) ->
   NoDup (map fst (spec_mappings_of pkg_of cfg inc))
   /\ (forall r k, In (r, k) (spec_mappings_of pkg_of cfg inc) <-> mapping_wanted pkg_of cfg inc r k).
-Proof. exact spec_mappings_of_char. Qed.
+Proof. exact spec_mappings_of_char_full. Qed.
+
+(* the decider of the code: the byte scanner + token matcher of declaresGoPackage (ProtoLex.v
+   scan_go_package, tied to the code by the exhaustive scan stream of the check) is the
+   specification's "declares option go_package" — for EVERY file content *)
+Theorem C20_scan_correct : forall c, scan_go_package c = declares_go_package c.
+Proof. exact scan_correct. Qed.
+
+(* record of the defect repaired by b058b67: the former line scan was exactly the substring test
+   "the content contains `option go_package =`" … *)
+Theorem C20_scan_orig_is_substring_test : forall c,
+  scan_go_package_orig c = true <-> exists a b, c = (a ++ go_package_marker ++ b)%string.
+Proof.
+  intros c. split; [apply scan_orig_sound|]. intros (a & b & ->). apply scan_orig_complete.
+Qed.
+
+(* … which is not "declares": a commented-out option counted, a space-less one did not (further
+   spellings: ProtoScan.v scan_refuted_…, each with the repaired scan's correct answer) *)
+Theorem C20_scan_orig_refuted :
+  (exists c, scan_go_package_orig c = true /\ declares_go_package c = false)
+  /\ (exists c, scan_go_package_orig c = false /\ declares_go_package c = true).
+Proof.
+  split.
+  - eexists. pose proof scan_refuted_line_comment as H. cbv zeta in H. destruct H as (H1 & H2 & _).
+    split; [exact H1|exact H2].
+  - eexists. pose proof scan_refuted_no_space as H. cbv zeta in H. destruct H as (H1 & H2 & _).
+    split; [exact H1|exact H2].
+Qed.
 
 (* on every tree: the mappings are those of the protos the line scan takes for undeclared *)
 Theorem C20_mappings_as_scanned : forall pkg_of cfg argv,
@@ -104,21 +110,6 @@ Theorem C20_mappings_as_scanned : forall pkg_of cfg argv,
   forall pl, mappings_of pl argv =
              if requested cfg pl then flat_map (scan_mappings_of pkg_of cfg) (include_paths cfg) else [].
 Proof. exact run_mappings. Qed.
-
-(* what the line scan decides, exactly: "the content contains `option go_package =`" … *)
-Theorem C20_scan_is_substring_test : forall c,
-  scan_go_package c = true <-> exists a b, c = (a ++ go_package_marker ++ b)%string.
-Proof.
-  intros c. split; [apply scan_sound|]. intros (a & b & ->). apply scan_complete.
-Qed.
-
-(* … which is right for the canonical spelling `option go_package = "…"` wherever it stands
-   outside comments, string literals and identifiers (the prefix leaves the lexer in its normal
-   state); the near misses are ProtoScan.scan_refuted_* *)
-Theorem C20_scan_right_on_canonical : forall pre pkg post toks,
-  lex_from LNormal [] pre = (LNormal, toks) -> plain_str """"%char pkg = true ->
-  scan_agrees (pre ++ "option go_package = """ ++ pkg ++ """" ++ post) = true.
-Proof. exact scan_agrees_canonical. Qed.
 
 (* exactly one invocation: Run hands one argument vector to exec.Command, and it gets there
    whenever the directories exist and PackageNameFromPath does not fail *)
@@ -132,16 +123,16 @@ Proof. exact invocations_exactly_one. Qed.
 
 (* the same, from the executable hypotheses the correspondence run evaluates on every case *)
 Theorem C20_checked : forall pkg_of cfg argv,
-  wf_nodeb (c_root cfg) = true -> dirs_okb cfg = true -> tree_agreesb (c_root cfg) = true ->
+  wf_nodeb (c_root cfg) = true -> dirs_okb cfg = true ->
   run pkg_of cfg = Ok argv ->
   map (to_abs (c_cwd cfg)) (files_of argv) = spec_files cfg
   /\ includes_of argv = spec_includes cfg
   /\ (forall pl, requests pl argv = requested cfg pl)
   /\ (forall pl, mappings_of pl argv = spec_mappings pkg_of cfg pl).
 Proof.
-  intros pkg_of cfg argv H1 H2 H3 H4.
+  intros pkg_of cfg argv H1 H2 H4.
   destruct (run_checked pkg_of cfg argv H1 H2 H4) as (A & B & C & D). repeat split; auto.
-  intros pl. rewrite spec_scan_mappings by (auto using wf_nodeb_sound). apply D.
+  intros pl. rewrite spec_scan_mappings by (auto using wf_nodeb_sound, tree_agrees_all). apply D.
 Qed.
 
 (* the judge of the correspondence run parses the recorded strings; on rendered argument vectors
@@ -186,15 +177,22 @@ Theorem C20_includes_exactly_once : forall pkg_of cfg argv,
    <-> NoDup (map (fun i => to_abs (c_cwd cfg) (fst i)) (include_paths cfg))).
 Proof. exact includes_nodup. Qed.
 
-(* the input directory is cut at '=' like an -include entry (string-level model, the one tied
-   to the source by the translator): an existing input directory k=v holding a proto makes Run
-   fail before protoc — "invokes protoc exactly once" and "an include path for the input
-   directory" are false there (known finding C20-input-dir-equals) *)
-Theorem C20_input_equals_refuted :
+(* since fix C20-input-dir-equals (507c907) the input directory is taken as typed: a directory
+   named k=v gets its own -I and mappings, and protoc runs once (string-level model, the one
+   tied to the source by the translator) … *)
+Theorem C20_input_equals_fixed :
+  snd (s_run eq_world eq_gen)
+  = [("protoc", ["--go_out=."; "--go_opt=paths=source_relative"; "--fatal_warnings"; "-I=/m/k=v";
+                 "--go_opt=Ma.proto=example.com/m/kv"; "k=v/a.proto"])].
+Proof. exact s_input_equals_fixed. Qed.
+
+(* … record of the defect: with strings.Cut applied to the input directory as well ([s_argv_orig])
+   the same command line made Run fail before protoc *)
+Theorem C20_input_equals_refuted_orig :
   fs_resolve eq_world (g_InputDir eq_gen) <> None
   /\ fst (s_find_protos eq_world eq_gen (g_InputDir eq_gen) false) = ["k=v/a.proto"]
-  /\ s_run eq_world eq_gen = (EFail, []).
-Proof. exact s_input_equals_refuted. Qed.
+  /\ s_argv_orig eq_world eq_gen = inr EFail.
+Proof. exact s_input_equals_refuted_orig. Qed.
 
 (* the model that the translator tie equates with the current source (ProtoStrModel.s_argv,
    strings as typed on the command line) computes the rendering of the model the theorems above
@@ -239,11 +237,10 @@ Definition ex_cfg (recurse : bool) : config :=
    named *.proto, a symlink named *.proto, an absolute input directory met again inside the
    walk of an include path (its parent), and a prefixed include *)
 Example C20_example_hyps :
-  wf_node ex_root /\ dirs_ok (ex_cfg true) /\ tree_agreesb ex_root = true /\ (forall d, ex_pkg d <> Err).
+  wf_node ex_root /\ dirs_ok (ex_cfg true) /\ (forall d, ex_pkg d <> Err).
 Proof.
   split; [apply wf_nodeb_sound; vm_compute; reflexivity|].
-  split; [apply dirs_okb_sound; vm_compute; reflexivity|].
-  split; [vm_compute; reflexivity|]. intros d; discriminate.
+  split; [apply dirs_okb_sound; vm_compute; reflexivity|]. intros d; discriminate.
 Qed.
 
 Definition ex_world : world :=
@@ -262,8 +259,8 @@ Proof.
   intros r. constructor; try reflexivity.
   - apply all_namesb_sound. vm_compute. reflexivity.
   - split; okp_tac.
+  - repeat split; try reflexivity. vm_compute. okp_tac.
   - repeat constructor.
-    + exists "/w/m/protos", "", false. repeat split; try reflexivity. vm_compute. okp_tac.
     + exists "../m", "", false. repeat split; try reflexivity. vm_compute. okp_tac.
     + exists "inc", "github.com//foo/", true. repeat split; try reflexivity. vm_compute. okp_tac.
 Qed.
@@ -325,16 +322,18 @@ Print Assumptions C20_files_scope.
 Print Assumptions C20_files_exactly_once.
 Print Assumptions C20_includes.
 Print Assumptions C20_plugins.
-Print Assumptions C20_full_refuted.
+Print Assumptions C20_full.
 Print Assumptions C20_mappings.
 Print Assumptions C20_mappings_scope.
+Print Assumptions C20_scan_correct.
+Print Assumptions C20_scan_orig_is_substring_test.
+Print Assumptions C20_scan_orig_refuted.
 Print Assumptions C20_mappings_as_scanned.
-Print Assumptions C20_scan_is_substring_test.
-Print Assumptions C20_scan_right_on_canonical.
 Print Assumptions C20_argv_shape.
 Print Assumptions C20_plugins_exactly_once.
 Print Assumptions C20_includes_exactly_once.
-Print Assumptions C20_input_equals_refuted.
+Print Assumptions C20_input_equals_fixed.
+Print Assumptions C20_input_equals_refuted_orig.
 Print Assumptions C20_source_model_refines.
 Print Assumptions C20_source_model_invocations.
 Print Assumptions C20_at_most_one_invocation.
